@@ -13,6 +13,11 @@
 //! The alist file must have been generated previoulsy with the
 //! [ccsds](super::ccsds) subcommand.
 
+// Verification seam (see simulation/ber.rs): Reporter.tx must be the same
+// channel type as the one used by the BER engine.
+#[cfg(ldpc_toolbox_verif)]
+use ::verif_shim::std_shim as std;
+
 use crate::{
     cli::*,
     decoder::factory::{DecoderFactory, DecoderImplementation},
